@@ -71,7 +71,7 @@ class ChannelEngine(Engine):
     name = 'channel_rt'
     max_ops = 8
     expected_probes = ['reorder_atoms', 'reorder_velocities', 'noise_header_line', 'noise_row_comment', 'noise_title',
-                       'loss_natoms', 'loss_bounds', 'loss_atoms_section', 'stream_source', 'short_read_source', 'path_source',
+                       'loss_natoms', 'loss_bounds', 'loss_atoms_section', 'loss_atoms_section_velocities_kept', 'stream_source', 'short_read_source', 'path_source',
                        'imageflags_written', 'tilted_cell', 'nonperiodic_dims', 'gapped_types', 'random_epoch',
                        'compared_cells_above_resolution', 'chained_transfer', 'poscar_cartesian', 'poscar_box_scale',
                        'dump_scaled_columns', 'writer_prop_info_used', 'dest_path', 'dest_stream', 'table_with_id']
@@ -190,7 +190,7 @@ class ChannelEngine(Engine):
         if r.random() < 0.3:
             plan['tail_noise'] = [r.choice(['', '# end', '   '])]
         if r.random() < 0.15:
-            plan['loss'] = r.choice(['natoms', 'xlo', 'ylo', 'zlo', 'atoms_section'])
+            plan['loss'] = r.choice(['natoms', 'xlo', 'ylo', 'zlo', 'atoms_section', 'atoms_only'])
         plan['tail_blank'] = r.choice([0, 0, 1, 3])
         return plan
 
